@@ -33,8 +33,10 @@ def templates(C):
             kl = rng.choice(klens)
             ln = max(minlen, min(maxlen, size))
             ln = max(blk, (ln // blk) * blk)
+            # bit-length modes: most items end inside the last byte (the untouched low bits of that byte belong to the
+            # caller: in the destination buffer they must stay what they were, whatever the source holds there)
             d = dict(cipher=mode, hash=NULLH, dir=rng.choice(dirs), key=hx(rng.bytes(kl)), iv=hx(rng.bytes(ivlen)),
-                     msg=hx(rng.bytes(ln)), coff=0, clen=(ln * 8 if bits else ln))
+                     msg=hx(rng.bytes(ln)), coff=0, clen=(max(1, ln * 8 - rng.choice([0, 1, 2, 3, 4, 5, 6, 7])) if bits else ln))
             if extra:
                 d.update(extra(rng, ln))
             return d
@@ -45,7 +47,7 @@ def templates(C):
             ln = max(minlen, min(maxlen, size))
             ln = max(blk, (ln // blk) * blk)
             d = dict(cipher=NULLC, hash=alg, akey=hx(rng.bytes(klen)) if klen else "-", msg=hx(rng.bytes(ln)),
-                     hoff=0, hlen=(ln * 8 if bits else ln), tag=rng.choice(tags))
+                     hoff=0, hlen=(max(1, ln * 8 - rng.choice([0, 0, 1, 3, 4, 7])) if bits else ln), tag=rng.choice(tags))
             if aiv:
                 d["aiv"] = hx(rng.bytes(aiv))
             return d
